@@ -285,8 +285,13 @@ def execute_and_check(ctx, mda, model, cfg, x, sol, e0, label):
         if is_nan_on_stagnation(mda, aborted=True) and ctx.known("acceleration_nan_on_stagnation"):
             return None
         ctx.fail("fixed_point", f"{label}: {exc}", cfg=cfg)
-    except Exception:
+    except Exception as exc:
         if is_nan_on_stagnation(mda) and ctx.known("acceleration_nan_on_stagnation"):
+            return None
+        if is_scipy_nonlin_breakdown(exc, cfg) and ctx.known("quasi_newton_zero_solution"):
+            # same family as C06-F2: SciPy's nonlin_solve breaks down (here on exactly singular secant updates)
+            # and MDAQuasiNewton lets the exception through instead of returning
+            ctx.cls("excluded:scipy_nonlin_breakdown_exception")
             return None
         raise
     if is_nan_on_stagnation(mda) and ctx.known("acceleration_nan_on_stagnation"):
@@ -361,6 +366,17 @@ def is_quasi_newton_zero_solution(cfg: dict, model: CoupledSystem, solutions: li
     if cfg["kind"] != "chain":
         groups = [[n for g in groups for n in g]]
     return any(g and all(not np.any(sol[n]) for n in g) for g in groups for sol in solutions)
+
+
+def is_scipy_nonlin_breakdown(exc: BaseException, cfg: dict) -> bool:
+    """Outcome-based part of the ledger class C06-F2: an exception raised by scipy.optimize._nonlin itself."""
+    import traceback
+
+    if not any(s_["cls"] == "MDAQuasiNewton" and s_["qn_method"] in NONLIN_SOLVE_METHODS for s_ in solver_parts(cfg)):
+        return False
+    frames = traceback.extract_tb(exc.__traceback__)
+    in_scipy = bool(frames) and "scipy/optimize/_nonlin" in frames[-1].filename
+    return in_scipy and isinstance(exc, (ZeroDivisionError, ValueError))
 
 
 def iterations_of(mda) -> int:
